@@ -92,4 +92,11 @@ def mapGet {Îº Î½ : Type} [DecidableEq Îº] (m : List (Îº Ã— Î½)) (k : Îº) (z : Î
   | some p => (p.2, true)
   | none => (z, false)
 
+/-- `xs[i]`: index out of range panics -/
+def sliceGet {Î± : Type} (xs : List Î±) (i : Int) : Except String Î± :=
+  if i < 0 then .error "index out of range"
+  else match xs[i.toNat]? with
+    | some v => .ok v
+    | none => .error "index out of range"
+
 end Go
